@@ -3,11 +3,14 @@
 
    PARTIAL: the theorems cover the language L0 of Vm/Model.v (literals, names, list/tuple/dict/set displays,
    not / is None / is not None / isinstance, and / or / conditional expressions, calls of module-level
-   functions; assignment, if/elif/else, def, pass, return), programs of any size and nesting.  Classes,
-   attributes, closures, comprehensions, exceptions and builtin signatures are outside the model and are
-   covered only by the end-to-end differential against CPython in harness/props/c01.py (search, not proof). *)
+   functions; assignment, if/elif/else, def, pass, return) and its extension L1 of Vm/ClassModel.v (module-level
+   classes with single/multiple inheritance, class attributes, __init__ and methods in A-normal form, instance
+   creation, attribute reads and stores on self and on module-level instances, method calls, cooperative
+   super()), programs of any size and nesting.  Objects stored in containers/attributes or passed as arguments,
+   closures, comprehensions, exceptions and builtin signatures are outside the model and are covered only by the
+   end-to-end differential against CPython in harness/props/c01.py (search, not proof). *)
 From Coq Require Import List ZArith Arith Bool.
-From PV Require Import Vm.Model Vm.Lemmas Vm.TypesProofs Vm.Proofs.
+From PV Require Import Vm.Model Vm.Lemmas Vm.TypesProofs Vm.Proofs Vm.ClassModel Vm.ClassProofs.
 Import ListNotations.
 Open Scope nat_scope.
 
@@ -128,3 +131,129 @@ Definition deep : prog :=
     TStmt (SAssign 1 (ECall 4 [EInt 3])) ].
 Example deep_infer : ceval 6 deep = Some [(1, VInt 3); (0, VInt 2)] /\ map (infer deep) [0; 1] = [TAny; TInt].
 Proof. vm_compute. split; reflexivity. Qed.
+
+(* ==================================================================================================== *)
+(* Fragment L1: classes (Vm/ClassModel.v).                                                               *)
+
+(* Module-level value names of an L1 program, both visibility modes (lz = false: strict run, the lower bound of
+   what pytype prints; lz = true: reaching-definitions run, the upper bound). *)
+Theorem l1_infer_sound : forall (lz : bool) (fuel : nat) (p : lprog) (st : lstate) (x : name) (v : value),
+  leval fuel p = Some st -> slook (cg (lv st)) x = Some v -> admits (linfer_mode lz p x) v.
+Proof. exact linfer_mode_sound_lemma. Qed.
+Print Assumptions l1_infer_sound.
+
+(* Instance attributes.  When the module has run to completion, for EVERY object on the heap (in particular every
+   module-level instance), of class c with instance dict s, and every attribute a holding v, the type the stub
+   declares for `class c: a: ...` (join over the instances of exactly c of the bindings visible at the exit, plus
+   the canonical instance's) admits v.  Both modes. *)
+Theorem attr_sound : forall (lz : bool) (fuel : nat) (p : lprog) (st : lstate) (i : nat) (c : cname) (s : store)
+  (a : attr) (v : value),
+  leval fuel p = Some st -> nth_error (lh st) i = Some (c, s) -> slook s a = Some v ->
+  admits (infer_attr lz p c a) v.
+Proof. exact attr_sound_lemma. Qed.
+Print Assumptions attr_sound.
+
+(* Method calls.  Whenever a concrete invocation of method m on the object i (looked up through the candidate
+   classes cands: the MRO of type(self), or its tail for super()) returns v and leaves the state st', and the
+   abstract invocation is analysed (either mode, any remaining depth budget m0; m0 = 0 is "maximum depth
+   reached") on rows that contain a row (W, avs) describing the actual arguments in a world W whose module frame
+   describes the globals and whose heap describes the heap object by object, then one of the abstract results
+   (W', a) has a describing v, and W' describes the heap after the call (or is marked havocked). *)
+Theorem method_call_sound : forall (lz : bool) (ce : cenv) (fuel0 n m0 : nat) (ft : ftable) (st : lstate) (i : nat)
+  (cands : list cname) (m : mname) (vs : list value) (st' : lstate) (v : value),
+  mcall_n ce fuel0 n ft st i cands m vs = Some (st', v) ->
+  forall (rows : list (lworld * list aval)) (W : lworld) (avs : list aval),
+    In (W, avs) rows -> Forall2 gamma avs vs ->
+    aw W <> [] -> fmatch (cg (lv st)) (last (aw W) []) -> hv W = false ->
+    lo st = ao W -> Forall2 hent_rel (lh st) (ah W) ->
+    exists W' a, In (W', a) (amcall_n lz ce m0 ft rows i cands m) /\ gamma a v /\ aw W' = aw W
+                 /\ hrel (hv W') (lo st') (lh st') (ao W') (ah W').
+Proof. exact msim_n. Qed.
+Print Assumptions method_call_sound.
+
+(* ... and the result of a module-level method call, once bound to a module-level name, is covered by
+   l1_infer_sound.  The DECLARED return type of the method is a different matter: output.py takes it from the
+   canonical analysis of the class alone (self = the canonical instance, whose attributes are what __init__ stores
+   when called with Any), so an attribute stored from outside the class is not reflected in it.
+       class C0:
+         def __init__(self): self.y = 1
+         def m(self): t = self.y; return t
+       o1 = C0(); o1.y = None; n1 = o1.m()
+   declares `def m(self) -> int` while the call returns None (reproduced on real pytype; known finding
+   method-return:attribute-redefined-outside-defining-class). *)
+Definition refute_prog : lprog := mkprog
+  [ mkclass [] [] [(0, ([], [LSet OSelf 0 (EInt 1)])); (1, ([], [LGet 9 OSelf 0; LReturn (EName 9)]))] ]
+  [ LStmt (LNew 1 0 []); LStmt (LSet (OName 1) 0 ENone); LStmt (LCall 1 (OName 1) 1 []) ].
+
+Theorem declared_return_refuted :
+  exists (p : lprog) (fuel : nat) (st : lstate) (o : oname) (c : cname) (m : mname) (x : name) (v : value),
+    leval fuel p = Some st /\ In (LStmt (LCall x (OName o) m [])) (pbody p) /\
+    slook (cg (lv st)) x = Some v /\
+    ~ admits (declared_ret false p c m) v /\ ~ admits (declared_ret true p c m) v.
+Proof.
+  exists refute_prog, 3. eexists. exists 1, 0, 1, 1, VNone.
+  split; [vm_compute; reflexivity|].
+  split; [simpl; auto|].
+  split; [reflexivity|].
+  split; vm_compute; intros H; exact H.
+Qed.
+Print Assumptions declared_return_refuted.
+
+(* the declared return type is sound when the receiver is described by the canonical worlds: an instance of
+   method_call_sound, stated for the canonical analysis ([canon_rets] is what [declared_ret] joins) *)
+Theorem declared_return_sound_partial : forall (lz : bool) (p : lprog) (c : cname) (m : mname) (params : list name)
+  (body : list lstmt) (fuel0 n : nat) (st st' : lstate) (i : nat) (vs : list value) (v : value) (W : lworld),
+  alook (cmeths (nth c (pclasses p) dflt_class)) m = Some (params, body) ->
+  mcall_n (acenv p) fuel0 n (ftable_of [] (pbody p)) st i [c] m vs = Some (st', v) ->
+  length vs = length params ->
+  In W (canon_worlds lz p c) -> i = pred (length (ah W)) ->
+  aw W <> [] -> fmatch (cg (lv st)) (last (aw W) []) -> hv W = false ->
+  lo st = ao W -> Forall2 hent_rel (lh st) (ah W) ->
+  admits (declared_ret lz p c m) v.
+Proof. exact declared_ret_partial_lemma. Qed.
+Print Assumptions declared_return_sound_partial.
+
+(* ---------------------------------------------------------------------------------------------------- *)
+(* Non-vacuity: a cooperative diamond.
+     class A:            __init__: self.x = 1                      m: return 1
+     class B(A):         __init__: super().__init__(); self.y = 1  m: t = super().m(); return t
+     class C(A):         __init__: super().__init__(); self.x = 's1'   m: return 's1'
+     class D(B, C):      k = 1.5
+     o1 = D(); n1 = o1.m(); n2 = o1.x; n3 = o1.k; n0 = 100
+     if n0: o1.y = None
+     n4 = o1.y *)
+Definition diamond : lprog := mkprog
+ [ mkclass [] [] [(0, ([], [LSet OSelf 0 (EInt 1)])); (1, ([], [LReturn (EInt 1)]))];
+   mkclass [0] [] [(0, ([], [LSuper 9 0 []; LSet OSelf 1 (EInt 1)])); (1, ([], [LSuper 9 1 []; LReturn (EName 9)]))];
+   mkclass [0] [] [(0, ([], [LSuper 9 0 []; LSet OSelf 0 (EStr 1)])); (1, ([], [LReturn (EStr 1)]))];
+   mkclass [1;2] [(5, EFloat 3)] [] ]
+ [ LStmt (LNew 1 3 []); LStmt (LCall 1 (OName 1) 1 []); LStmt (LGet 2 (OName 1) 0); LStmt (LGet 3 (OName 1) 5);
+   LStmt (LAssign 0 (EInt 100));
+   LStmt (LIf (EName 0) [LSet (OName 1) 1 ENone] []);
+   LStmt (LGet 4 (OName 1) 1) ].
+
+Example diamond_runs :
+  leval 5 diamond = Some (mkl (mkc [(4, VNone); (0, VInt 100); (3, VFloat 3); (2, VStr 1); (1, VStr 1)] [])
+                              [(1, 0)] [(3, [(1, VNone); (1, VInt 1); (0, VStr 1); (0, VInt 1)])]).
+Proof. vm_compute. reflexivity. Qed.
+
+(* super() in B.m reaches the sibling C.m (MRO D, B, C, A): n1 is str; D.x is str (C.__init__ runs after A's),
+   D.y is int | None; B alone keeps x: int; the declared return types come from the canonical analysis *)
+Example diamond_infer :
+  map (linfer_mode false diamond) [1; 2; 3; 4] = [TStr; TStr; TFloat; TUnion [TNone; TInt]] /\
+  map (fun ca => infer_attr false diamond (fst ca) (snd ca)) [(3, 0); (3, 1); (1, 0); (2, 0); (0, 0)]
+    = [TStr; TUnion [TNone; TInt]; TInt; TStr; TInt] /\
+  map (fun cm => declared_ret false diamond (fst cm) (snd cm)) [(0, 1); (1, 1); (2, 1)] = [TInt; TInt; TStr].
+Proof. vm_compute. repeat split; reflexivity. Qed.
+
+Example diamond_attr_admits : admits (infer_attr true diamond 3 1) VNone.
+Proof. eapply (attr_sound true 5 diamond _ 0 3 _ 1 VNone diamond_runs); reflexivity. Qed.
+
+(* the shared computation the harness evaluates ([lreport]) gives the same answers as the per-query definitions the
+   theorems above are about *)
+Example lreport_agrees_with_spec :
+  let r := lreport diamond [1; 2; 3; 4] [1] [(3, 0); (3, 1); (1, 0); (0, 0)] [(0, 1); (1, 1); (2, 1)] 5 in
+  (map (fun q => (snd (fst (fst q)), snd q)) (fst (fst (fst (fst (fst r))))),
+   snd (fst (fst (fst (fst r)))), snd (fst (fst (fst r))))
+  = lreport_spec diamond [1; 2; 3; 4] [(3, 0); (3, 1); (1, 0); (0, 0)] [(0, 1); (1, 1); (2, 1)].
+Proof. vm_compute. reflexivity. Qed.
